@@ -16,7 +16,10 @@
 //!                     delivered first (a delayed duplicate), its reply is
 //!                     thrown away;
 //! * `down`          - the target instance is not running: connection
-//!                     refused.
+//!                     refused;
+//! * `partitioned`   - the link between the instances is cut while both
+//!                     keep running: nothing gets across in either
+//!                     direction until it is restored.
 
 use std::collections::BTreeMap;
 use std::str::FromStr;
@@ -62,6 +65,9 @@ struct Net {
     seen: BTreeMap<String, Vec<Vec<u8>>>,
     /// Faults are suspended while the harness sets things up.
     quiet: bool,
+    /// The link between the instances is cut: both keep running, nothing
+    /// gets from one to the other.
+    cut: bool,
 }
 
 static NET: Mutex<Option<Net>> = Mutex::new(None);
@@ -74,6 +80,7 @@ fn lock() -> std::sync::MutexGuard<'static, Option<Net>> {
 pub fn install(rng: Rng, cfg: NetCfg) {
     *lock() = Some(Net {
         hosts: BTreeMap::new(), rng, cfg, seen: BTreeMap::new(), quiet: false,
+        cut: false,
     });
     hooks::state().net = Some(Arc::new(|uri, body, _content_type| {
         Some(deliver(uri, body))
@@ -89,7 +96,7 @@ pub fn uninstall() {
 pub fn faults_fired() -> u64 {
     let st = hooks::state();
     ["net.drop_request", "net.drop_response", "net.duplicate",
-     "net.late_copy", "net.down"].iter()
+     "net.late_copy", "net.down", "net.partitioned"].iter()
         .map(|k| st.fired.get(*k).copied().unwrap_or(0)).sum()
 }
 
@@ -99,6 +106,17 @@ pub fn set_quiet(quiet: bool) -> bool {
         Some(net) => std::mem::replace(&mut net.quiet, quiet),
         None => false,
     }
+}
+
+/// Cuts or restores the link between the instances.
+pub fn set_cut(cut: bool) {
+    if let Some(net) = lock().as_mut() {
+        net.cut = cut;
+    }
+}
+
+pub fn is_cut() -> bool {
+    lock().as_ref().map(|net| net.cut).unwrap_or(false)
 }
 
 pub fn set_cfg(cfg: NetCfg) {
@@ -149,6 +167,17 @@ fn deliver(uri: &str, body: &[u8]) -> Result<Bytes, String> {
         let target = net.hosts.get(host).map(|h| {
             (h.idx, h.skew_secs, h.started_at, h.mgr.clone())
         });
+        if net.cut {
+            if let Some((idx, ..)) = target {
+                if idx != hooks::current_instance() {
+                    drop(guard);
+                    hooks::state().fire("net.partitioned");
+                    return Err(format!(
+                        "timeout talking to {host} (no route)"
+                    ))
+                }
+            }
+        }
         let plan = if net.quiet {
             Plan::Deliver { late_copy: None, twice: false, drop_response: false }
         }
